@@ -40,7 +40,9 @@ ASSUMPTIONS = [
 
 
 def envs(tier):
-	return [dict(preload=['gompsim.so'], env={'OMP_WAIT_POLICY': 'PASSIVE', 'GOMP_SPINCOUNT': '0', 'OMP_DYNAMIC': 'FALSE'})]
+	base = {'OMP_WAIT_POLICY': 'PASSIVE', 'GOMP_SPINCOUNT': '0', 'OMP_DYNAMIC': 'FALSE'}
+	# every fourth run under `python -O`: results must not depend on assert statements being executed
+	return [dict(preload=['gompsim.so'], env=base)] * 3 + [dict(preload=['gompsim.so'], env=dict(base, PYTHONOPTIMIZE='1'))]
 
 
 class PoolWorld:
@@ -112,38 +114,48 @@ def check_tree(ctx, desc, text, labels, dmat):
 	if not complete:
 		ctx.probe('tie_search_capped')
 		return
-	import itertools
-	groups = [(lab, idxs, [l for l in leaves if str(l.name) == lab]) for lab, idxs in by_label.items()]
-	# all assignments of leaves to inputs consistent with labels (repeated labels are rare and small)
-	def assignments():
-		per = [list(itertools.permutations(g[2])) for g in groups]
-		for combo in itertools.product(*per):
-			m = {}
-			for (lab, idxs, _), perm in zip(groups, combo):
-				for i, leaf in zip(idxs, perm):
-					m[i] = leaf
-			yield m
-	best = None
-	count = 0
-	for m in assignments():
-		count += 1
-		if count > 200:
-			break
-		for coph in cophs:
-			worst = 0.0
-			ok = True
-			for i in range(n):
-				for j in range(i + 1, n):
-					plen, ne = paths[(id(m[i]), id(m[j]))]
-					tol = ne * 0.5e-5 + 1e-9
+	# Leaves to inputs: labels may repeat (the same file twice, homonym files), so a label-preserving bijection has to be
+	# found. Backtracking with pruning: input i may sit on leaf l if l carries i's label, is unused, and its path lengths
+	# to all already placed inputs fit.
+	leaf_ids = [id(l) for l in leaves]
+	leaf_label = {id(l): str(l.name) for l in leaves}
+	best = [None]
+
+	def fits(coph):
+		placed = {}
+		used = set()
+		worst = [0.0]
+
+		def place(i):
+			if i == n:
+				return True
+			for lid in leaf_ids:
+				if lid in used or leaf_label[lid] != labels[i]:
+					continue
+				ok = True
+				for j, lj in placed.items():
+					plen, ne = paths[(lid, lj)]
 					err = abs(plen - 2 * coph[i][j])
-					if err > tol:
+					if err > ne * 0.5e-5 + 1e-9:
 						ok = False
-						worst = max(worst, err)
-			if ok:
-				return
-			if best is None or worst < best[0]:
-				best = (worst, coph)
+						worst[0] = max(worst[0], err)
+						break
+				if ok:
+					placed[i] = lid
+					used.add(lid)
+					if place(i + 1):
+						return True
+					del placed[i]
+					used.discard(lid)
+			return False
+		res = place(0)
+		if not res and (best[0] is None or worst[0] < best[0][0]):
+			best[0] = (worst[0], coph)
+		return res
+	for coph in cophs:
+		if fits(coph):
+			return
+	best = best[0] or (float('nan'), None)
 	ctx.violation('C17.cophenetic', f'{desc}: leaf-to-leaf path lengths match no admissible UPGMA clustering of the expected distances (n={n}, worst deviation {best[0]:.6g})',
 	              detail=f'newick {text.strip()[:400]}\nexpected distances {[[round(x, 6) for x in r] for r in dmat]}')
 
@@ -176,6 +188,7 @@ def scenario(ctx):
 		knobs = Knobs(ch, L, with_chunk=False, faults=True)
 		needs_cwd = None
 		fault_paths = None
+		foreign = False
 		if ch.flip(0.1, L + '.failing_before'):
 			fk = Knobs(ch, L + '.fail', with_chunk=False)
 			fres, _ = run_cli(ctx, ['tree', '-k', str(kspec.k), '-p', kspec.prefix_str, '--no-progress', pool.genomes[0]['plain'], pool.broken], fk)
@@ -183,7 +196,9 @@ def scenario(ctx):
 			ctx.log('failing_cmd', status=fres.status)
 		if channel == 'sigfile':
 			eff = kspec
-			path, labels = write_sigfile(ctx, pool, idxs, kspec, f'tree-{c}.gs', int_ids=ch.flip(0.2, L + '.intids'))
+			foreign = ch.flip(0.08, L + '.bigendian')
+			path, labels = write_sigfile(ctx, pool, idxs, kspec, f'tree-{c}.gs', int_ids=ch.flip(0.2, L + '.intids'),
+			                             id_style=ch.int(0, 3, L + '.idstyle'), big_endian=foreign)
 			args_in = ['-s', path]
 			kargs = []   # -k/-p accompany genome files only
 		else:
@@ -235,6 +250,9 @@ def scenario(ctx):
 			continue
 		if h.fault_fired:
 			ctx.probe('command_succeeded_under_fault')
+		if res.status != 0 and foreign:
+			ctx.probe('foreign_byte_order_refused')
+			continue
 		if res.status != 0:
 			ctx.violation('C17.failed', f'{desc}: exit status {res.status} ({type(res.exc).__name__ if res.exc else "-"})', detail=f'{res.exc!r} {res.stderr[-400:]}')
 		check_tree(ctx, desc, text, labels, dmat)
